@@ -523,6 +523,41 @@ Fixpoint anchors_scan (n : cnode) (seen : list string) {struct n} : option (list
 Definition anchors_ok (n : cnode) : bool :=
   match anchors_scan n [] with Some _ => true | None => false end.
 
+(* ---------- canonical order (what a formatted document looks like) ---------- *)
+
+(* no later entry is smaller than an earlier one *)
+Fixpoint sortedb {A} (lt : A -> A -> bool) (l : list A) : bool :=
+  match l with
+  | [] => true
+  | x :: t => forallb (fun y => negb (lt y x)) t && sortedb lt t
+  end.
+
+(* every mapping is in field order (sortedMapContents.Less) and every whitelisted list is ordered by
+   the sort keys of its elements (sortedSeqContents.Less) *)
+Fixpoint canon_sorted (kind api : string) (path : string) (n : cnode) {struct n} : bool :=
+  match n with
+  | CScalar _ _ | CAlias _ _ => true
+  | CMap _ kvs =>
+      sortedb less_key (key_values kvs) &&
+      (fix go (l : list (cnode * cnode)) : bool :=
+         match l with
+         | [] => true
+         | kv :: t =>
+             canon_sorted kind api path (fst kv) &&
+             canon_sorted kind api (path ++ "." ++ cvalue (fst kv)) (snd kv) && go t
+         end) kvs
+  | CSeq _ es =>
+      match sort_field kind api path with
+      | Some f => match mapM (seq_key f) es with Ok K => sortedb String.ltb K | _ => false end
+      | None => true
+      end &&
+      (fix go (l : list cnode) : bool :=
+         match l with
+         | [] => true
+         | e :: t => canon_sorted kind api path e && go t
+         end) es
+  end.
+
 (* ---------- induction principle for the nested inductive ---------- *)
 Section CnodeInd.
   Variable P : cnode -> Prop.
